@@ -95,6 +95,7 @@ func (e *JSchemaError) SetIncorrectUserType(s string) {
 
 func (e *JSchemaError) SetFile(file *fs.File) {
 	e.file = file
+	e.prepared = false // the length and the newline symbol are those of the previous file
 }
 
 func (e *JSchemaError) SetMessage(message string) {
